@@ -123,3 +123,29 @@ Proof.
   - do 1 other. change 40 with (40 + 0) at 1. rewrite getf_setf_sub by lia. apply getf_0_8.
   - change 48 with (48 + 0) at 1. rewrite getf_setf_sub by lia. apply getf_0_8.
 Qed.
+
+(* single-field updates at the byte level *)
+Theorem ll_with_flags_bytes : forall h fl, h < 2 ^ 56 ->
+  le_enc 7 (ll_with LFlags h fl) = firstn 5 (le_enc 7 h) ++ [fl mod 256] ++ skipn 6 (le_enc 7 h).
+Proof.
+  intros h fl Hh. rewrite !le_enc7_fields. unfold ll_with. cbn [ll_sh ll_w firstn skipn app].
+  f_equal; [|f_equal; [|f_equal; [|f_equal; [|f_equal; [|f_equal; [|f_equal]]]]]].
+  1-5: other; reflexivity.
+  - change 40 with (40 + 0) at 1. rewrite getf_setf_sub by lia. apply getf_0_8.
+  - other. reflexivity.
+Qed.
+
+Theorem ll_with_crc8_bytes : forall h c, h < 2 ^ 56 ->
+  le_enc 7 (ll_with LCrc8 h c) = firstn 6 (le_enc 7 h) ++ [c mod 256].
+Proof.
+  intros h c Hh. rewrite !le_enc7_fields. unfold ll_with. cbn [ll_sh ll_w firstn skipn app].
+  f_equal; [|f_equal; [|f_equal; [|f_equal; [|f_equal; [|f_equal; [|f_equal]]]]]].
+  1-6: other; reflexivity.
+  change 48 with (48 + 0) at 1. rewrite getf_setf_sub by lia. apply getf_0_8.
+Qed.
+
+Theorem ll_get_flags_byte : forall h, ll_get LFlags h = nth 5 (le_enc 7 h) 0.
+Proof. intros h. rewrite le_enc7_fields. reflexivity. Qed.
+
+Lemma ll_make_lt : forall sig size ty flags c8, ll_make sig size ty flags c8 < 2 ^ 56.
+Proof. intros. unfold ll_make. apply ll_with_lt. Qed.
